@@ -28,6 +28,11 @@ RULE = ("x in {Scalar, Array over list / tuple / ndarray, lengths 0..5} with a s
         "distinct = distinct (form, operands); non-trivial = the real code returned a barril object")
 EXHAUSTIVE = {"quick": False, "thorough": False}
 ASSUMPTIONS = [
+    "a ZERO-dimensional ndarray operand is given to the model as the one-element 1-D ndarray (against the 1-D values of an "
+    "Array numpy broadcasts both in the same way); generated against Arrays only (a Scalar with an ndarray raises)",
+    "the caption of an unknown unit is not part of the model's ordered dict: `scalarNumCaption` (same branches as "
+    "`scalarDoOp`) predicts it for Scalar-with-number operations; ARRAYS of a captioned unknown unit are kept out of the "
+    "generators (x*k, k*x, x/k, x//k drop the caption on the unchanged tree: reported)",
     "float results stay within 4*K*eps*M (K=64; eps=2^-24 when a float32 takes part) of the exact model: checked, not proved",
     "a non-finite numpy result (division by zero yields inf/nan plus a RuntimeWarning) is canonicalised to the error "
     "class `other`, which is what the model answers for a zero divisor; zero divisors are generated in float slots only "
@@ -126,6 +131,24 @@ def _gen(ctx, salt, n_simple, n_derived, n_junk):
                     k = oc.nd_spec(dt, oc.rand_values(rng, m, nonzero=True, ints=(dt == "i64")), sub=sub)
                     x = _x(rng, q, shape, n, False, nonzero=True)
                     yield _case(f, side, x, k)
+            # an ndarray that numpy treats as ONE number: zero-dimensional (numpy.array(2.0)) or one element, against
+            # every length of x (broadcast over the values)
+            if shape != "scalar":
+                for f, side in FORMS:
+                    n = rng.choice([0, 1, 2, 3, 5])
+                    dt = rng.choice(["f64", "f64", "f32", "i64"])
+                    d0 = rng.random() < 0.6
+                    kv = oc.rand_values(rng, 1, nonzero=True, ints=(dt == "i64"))
+                    k = oc.nd_spec(dt, kv, d0=True) if d0 else oc.nd_spec(dt, kv, sub=rng.choice([None, None, None] + list(oc.ND_SUBS)))
+                    k_divides = side == "kx" and f in ("div", "floordiv")
+                    yield _case(f, side, _x(rng, q, shape, n, False, nonzero=k_divides or rng.random() < 0.5), k)
+    # Scalars whose unit is an UNKNOWN unit with a caption (the only name the unit has) and every kind of number
+    for caption in ("furlongs", "my unit", "bbl/d per psi"):
+        for ty in oc.NUM_TYPES + oc.SMALL_TYPES:
+            for f, side in FORMS:
+                k_divides = side == "kx" and f in ("div", "floordiv")
+                x = oc.captioned_scalar_spec(caption, oc.rand_value(rng, nonzero=k_divides or rng.random() < 0.9))
+                yield _case(f, side, x, _k(rng, ty, allow_zero=ty in ("float", "f64")))
     # malformed stream
     for _ in range(n_junk):
         q = oc.simple_q(ctx, rng)
@@ -475,6 +498,9 @@ def _oracle_binop(c, ctx, objs):
     x, k = (B, A) if k_left else (A, B)
     ks = [oc.val(v) for v in kspec["xs"]] if kspec["t"] == "nd" else None
     kmask = list(kspec.get("mask") or []) if kspec["t"] == "nd" else []   # masked positions carry no value
+    if ks is not None and len(ks) == 1 and len(xs) != 1:
+        # a zero-dimensional or one-element ndarray is ONE number for numpy: it meets every value of x
+        ks, kmask = ks * len(xs), kmask * len(xs)
     if ks is not None and len(ks) != len(xs):
         return None  # numpy's broadcasting rules decide; not part of the property
     form = "%s %s %s" % (oc.render(a), oc.OPSIGN[f], oc.render(b))
@@ -566,6 +592,10 @@ def _oracle_binop(c, ctx, objs):
                 return m_
         # the eight forms keep x's quantity: for every quantity, simple or derived
         want = [[cc, u, int(e)] for cc, u, e in q]
+        if xspec.get("cap") and (r.GetQuantity() != x.GetQuantity() or r.GetQuantity().GetUnknownCaption() != xspec["cap"]):
+            # the caption of an unknown unit is part of x's quantity (it is the name of the unit)
+            return fail(clause="the result keeps x's quantity", form=form, got=rq, want=want,
+                        got_caption=r.GetQuantity().GetUnknownCaption(), want_caption=xspec["cap"])
         if normal and (rq != want or r.GetQuantity() != x.GetQuantity()):
             return fail(clause="the result keeps x's quantity", form=form, got=rq, want=want)
         if r.GetUnit() != x.GetUnit() or dim_r != dim_x:
@@ -651,7 +681,26 @@ def matches_known(entry, case, failure):
     return _in_known_class(case, failure)
 
 
+CLASS_CAPTION = "array-with-number: the quantity carries an unknown-unit caption"
+
+
+def _replay_caption(entry):
+    """the recorded input of C09-array-number-unknown-caption on the real code (these operands are kept out of the
+    generators: the model follows the Scalar behaviour, which keeps the caption)"""
+    from barril.units import Array, ObtainQuantity
+
+    rc = entry.get("replay_case") or {}
+    q = ObtainQuantity("<unknown>", None, rc.get("caption", "furlongs"))
+    a = Array(q, list(rc.get("values", [1.0, 2.0])))
+    k = rc.get("k", 2)
+    lost = [name for name, r in (("x*k", a * k), ("k*x", k * a), ("x/k", a / k), ("x//k", a // k))
+            if r.GetQuantity() != q]
+    return dict(clause="keeps x's quantity", forms=lost, **{"class": CLASS_CAPTION}) if lost else None
+
+
 def replay_finding(entry, ctx):
+    if (entry.get("matcher") or {}).get("class") == CLASS_CAPTION:
+        return _replay_caption(entry)
     if (entry.get("matcher") or {}).get("class") != CLASS_MIXED:
         return None
     rc = entry.get("replay_case") or {}
